@@ -333,6 +333,45 @@ theorem malformed_only_value_errors (mt hdr : Str) (e : Err) (h : quality mt hdr
       exact mapM'_error parseMediaRange _ e he
     · cases h
 
+/-! ### case-insensitive type / subtype (fix a19fe30) -/
+
+theorem lowerC_idem (c : Char) : lowerC (lowerC c) = lowerC c := by
+  unfold lowerC
+  by_cases h : 65 ≤ c.toNat ∧ c.toNat ≤ 90
+  · have hv : (c.toNat + 32).isValidChar := by
+      simp only [Nat.isValidChar]; omega
+    have hn : (Char.ofNat (c.toNat + 32)).toNat = c.toNat + 32 := by
+      unfold Char.ofNat; rw [dif_pos hv]; rfl
+    simp only [if_pos h, hn]
+    have : ¬ (65 ≤ c.toNat + 32 ∧ c.toNat + 32 ≤ 90) := by omega
+    rw [if_neg this]
+  · simp only [if_neg h]
+
+theorem lower_idem (s : Str) : lower (lower s) = lower s := by
+  unfold lower
+  rw [List.map_map]
+  apply List.map_congr_left
+  intro c _
+  exact lowerC_idem c
+
+/-- Fix a19fe30: the type and subtype of every parsed media type are in lower case - two spellings that differ only in the
+    case of ASCII letters of the type / subtype parse to the same type and subtype, so matching cannot tell them apart. -/
+theorem parsed_type_is_lower (s : Str) (m : MediaType) (h : parseMediaTypeHeader s = .ok m) :
+    lower m.main = m.main ∧ lower m.sub = m.sub := by
+  unfold parseMediaTypeHeader at h
+  split at h
+  · cases h
+  · generalize parseHeader s = ph at h
+    obtain ⟨full, params⟩ := ph
+    simp only at h
+    generalize partition '/' (if (full == ['*']) = true then ['*', '/', '*'] else full) = pt at h
+    obtain ⟨mm, sep, sub⟩ := pt
+    simp only at h
+    split at h
+    · cases h
+    · injection h with h; subst h; exact ⟨lower_idem _, lower_idem _⟩
+
+
 #print axioms quality_is_q_of_most_specific
 #print axioms bestMatch_is_first_max
 end Mt
